@@ -72,7 +72,14 @@ func (c *Conn) maybeSend(now time.Time) (next time.Time) {
 				extra:     c.retryToken,
 			}
 			c.w.startProtectedLongHeaderPacket(pnumMaxAcked, p)
-			c.appendFrames(now, initialSpace, pnum, limit)
+			initialLimit := limit
+			if c.side == serverSide && initialLimit == ccOK && c.loss.maxSendSize() < paddedInitialDatagramSize {
+				// A datagram carrying an ack-eliciting Initial packet is padded
+				// to 1200 bytes, which would exceed the anti-amplification limit.
+				// Send only ACKs in this space until the limit allows more.
+				initialLimit = ccLimited
+			}
+			c.appendFrames(now, initialSpace, pnum, initialLimit)
 			if logPackets {
 				logSentPacket(c, packetTypeInitial, pnum, p.srcConnID, p.dstConnID, c.w.payload())
 			}
